@@ -154,6 +154,7 @@ func (ex *Exec) ResetRun() {
 	ex.KeepHarnessOutcomes = true
 	ex.NoOutcomeMerge = false
 	ex.RecordGlobals = false
+	ex.feasQ0, ex.feasS0 = ex.FeasQ, ex.FeasSecs
 	factsCache = map[int]*facts{}
 	globalConj = nil
 	setTermMemo = map[string]*term.Term{}
